@@ -38,9 +38,9 @@ type iter struct {
 	loop    *ssau.Loop
 	kind    string // "map" | "slice"
 	coll    ssa.Value
-	next    *ssa.Next  // map
-	idx     ssa.Value  // slice
-	exhaust flow.Edge  // edge taken when the collection is exhausted
+	next    *ssa.Next // map
+	idx     ssa.Value // slice
+	exhaust flow.Edge // edge taken when the collection is exhausted
 	body    *ssa.BasicBlock
 	tag     string
 }
@@ -337,6 +337,16 @@ func derives(v ssa.Value, pred func(ssa.Value) bool) bool {
 			}
 			return visit(a)
 		}
+		if mk, ok := v.(*ssa.MakeMap); ok {
+			// what was put into the local map
+			for _, r := range ssau.Refs(mk) {
+				if mu, ok := r.(*ssa.MapUpdate); ok && mu.Map == ssa.Value(mk) {
+					if walk(mu.Key) || walk(mu.Value) {
+						return true
+					}
+				}
+			}
+		}
 		in, ok := v.(ssa.Instruction)
 		if !ok {
 			return false
@@ -371,7 +381,7 @@ func isErrorReturn(r *ssa.Return) bool {
 	if len(r.Results) == 0 {
 		return false
 	}
-	last := r.Results[len(r.Results)-1]
+	last := flow.Unspill(r, r.Results[len(r.Results)-1])
 	if !types.Identical(last.Type(), types.Universe.Lookup("error").Type()) {
 		return false
 	}
@@ -505,6 +515,15 @@ func (fi *fnInfo) keysOf(it *iter) (string, bool) {
 			}
 		case *ssa.Slice:
 			walk(x.X)
+		case *ssa.UnOp:
+			// a variable captured by a closure (sort.Slice's less) lives in a cell
+			if cell, isCell := x.X.(*ssa.Alloc); isCell && x.Op == token.MUL {
+				for _, r := range ssau.Refs(cell) {
+					if s, isStore := r.(*ssa.Store); isStore && s.Addr == ssa.Value(cell) {
+						walk(s.Val)
+					}
+				}
+			}
 		case *ssa.Call:
 			if ssau.Builtin(x) != "append" {
 				return
